@@ -174,113 +174,113 @@ Proof. vm_compute. repeat split; reflexivity. Qed.
 (* --- RankSelectSE256 as written (separated.rs: u32 lev1 + four u8 lev2 per 256-bit block, sentinel, optional
        select caches, upper-bound binary search, descending scan over lev2, in-word select), every bit list, both
        select-cache settings --- *)
-Theorem se256_rank1_correct : forall bs sp0 sp1 p,
-  p <= length bs -> se256_rank1 (se256_build bs sp0 sp1) p = Some (rank1 bs p).
+Theorem se256_rank1_correct : forall extra bs sp0 sp1 p,
+  p <= length bs -> se256_rank1 (se256_build bs extra sp0 sp1) p = Some (rank1 bs p).
 Proof. exact se256_rank1_correct_proof. Qed.
-Check se256_rank1_correct : forall bs sp0 sp1 p,
-  p <= length bs -> se256_rank1 (se256_build bs sp0 sp1) p = Some (rank1 bs p).
+Check se256_rank1_correct : forall extra bs sp0 sp1 p,
+  p <= length bs -> se256_rank1 (se256_build bs extra sp0 sp1) p = Some (rank1 bs p).
 Print Assumptions se256_rank1_correct.
 
-Theorem se256_rank0_correct : forall bs sp0 sp1 p,
-  p <= length bs -> se256_rank0 (se256_build bs sp0 sp1) p = Some (rank0 bs p).
+Theorem se256_rank0_correct : forall extra bs sp0 sp1 p,
+  p <= length bs -> se256_rank0 (se256_build bs extra sp0 sp1) p = Some (rank0 bs p).
 Proof. exact se256_rank0_correct_proof. Qed.
-Check se256_rank0_correct : forall bs sp0 sp1 p,
-  p <= length bs -> se256_rank0 (se256_build bs sp0 sp1) p = Some (rank0 bs p).
+Check se256_rank0_correct : forall extra bs sp0 sp1 p,
+  p <= length bs -> se256_rank0 (se256_build bs extra sp0 sp1) p = Some (rank0 bs p).
 Print Assumptions se256_rank0_correct.
 
-Theorem se256_rank1_refuses_past_end : forall bs sp0 sp1 p,
-  length bs < p -> se256_rank1 (se256_build bs sp0 sp1) p = None.
+Theorem se256_rank1_refuses_past_end : forall extra bs sp0 sp1 p,
+  length bs < p -> se256_rank1 (se256_build bs extra sp0 sp1) p = None.
 Proof. exact se256_rank1_refuses_proof. Qed.
-Check se256_rank1_refuses_past_end : forall bs sp0 sp1 p,
-  length bs < p -> se256_rank1 (se256_build bs sp0 sp1) p = None.
+Check se256_rank1_refuses_past_end : forall extra bs sp0 sp1 p,
+  length bs < p -> se256_rank1 (se256_build bs extra sp0 sp1) p = None.
 Print Assumptions se256_rank1_refuses_past_end.
 
-Theorem se256_get_correct : forall bs sp0 sp1 i,
-  se256_get (se256_build bs sp0 sp1) i = if length bs <=? i then None else Some (nth i bs false).
+Theorem se256_get_correct : forall extra bs sp0 sp1 i,
+  se256_get (se256_build bs extra sp0 sp1) i = if length bs <=? i then None else Some (nth i bs false).
 Proof. exact se256_get_correct_proof. Qed.
-Check se256_get_correct : forall bs sp0 sp1 i,
-  se256_get (se256_build bs sp0 sp1) i = if length bs <=? i then None else Some (nth i bs false).
+Check se256_get_correct : forall extra bs sp0 sp1 i,
+  se256_get (se256_build bs extra sp0 sp1) i = if length bs <=? i then None else Some (nth i bs false).
 Print Assumptions se256_get_correct.
 
-Theorem se256_count_ones : forall bs sp0 sp1,
-  mr1_256 (se256_build bs sp0 sp1) = count1 bs /\ size256 (se256_build bs sp0 sp1) = length bs.
+Theorem se256_count_ones : forall extra bs sp0 sp1,
+  mr1_256 (se256_build bs extra sp0 sp1) = count1 bs /\ size256 (se256_build bs extra sp0 sp1) = length bs.
 Proof. exact se256_count_ones_proof. Qed.
-Check se256_count_ones : forall bs sp0 sp1,
-  mr1_256 (se256_build bs sp0 sp1) = count1 bs /\ size256 (se256_build bs sp0 sp1) = length bs.
+Check se256_count_ones : forall extra bs sp0 sp1,
+  mr1_256 (se256_build bs extra sp0 sp1) = count1 bs /\ size256 (se256_build bs extra sp0 sp1) = length bs.
 Print Assumptions se256_count_ones.
 
-Theorem se256_select1_correct : forall bs sp0 sp1 k,
-  se256_select1 (se256_build bs sp0 sp1) k = select1 bs k.
+Theorem se256_select1_correct : forall extra bs sp0 sp1 k,
+  se256_select1 (se256_build bs extra sp0 sp1) k = select1 bs k.
 Proof. exact se256_select1_correct_proof. Qed.
-Check se256_select1_correct : forall bs sp0 sp1 k,
-  se256_select1 (se256_build bs sp0 sp1) k = select1 bs k.
+Check se256_select1_correct : forall extra bs sp0 sp1 k,
+  se256_select1 (se256_build bs extra sp0 sp1) k = select1 bs k.
 Print Assumptions se256_select1_correct.
 
-Theorem se256_select0_correct : forall bs sp0 sp1 k,
-  se256_select0 (se256_build bs sp0 sp1) k = select0 bs k.
+Theorem se256_select0_correct : forall extra bs sp0 sp1 k,
+  se256_select0 (se256_build bs extra sp0 sp1) k = select0 bs k.
 Proof. exact se256_select0_correct_proof. Qed.
-Check se256_select0_correct : forall bs sp0 sp1 k,
-  se256_select0 (se256_build bs sp0 sp1) k = select0 bs k.
+Check se256_select0_correct : forall extra bs sp0 sp1 k,
+  se256_select0 (se256_build bs extra sp0 sp1) k = select0 bs k.
 Print Assumptions se256_select0_correct.
 
 Example se256_nonvacuous :
   let bs := repeat true 300 ++ repeat false 212 ++ repeat true 88 in
-  se256_rank1 (se256_build bs true true) 600 = Some 388 /\ se256_rank1 (se256_build bs true true) 512 = Some 300 /\
-  se256_rank1 (se256_build bs true true) 601 = None /\
-  se256_select1 (se256_build bs true true) 300 = Some 512 /\ se256_select1 (se256_build bs false false) 388 = None /\
-  se256_select0 (se256_build bs true false) 211 = Some 511 /\ se256_select0 (se256_build bs true true) 212 = None.
+  se256_rank1 (se256_build bs 0 true true) 600 = Some 388 /\ se256_rank1 (se256_build bs 0 true true) 512 = Some 300 /\
+  se256_rank1 (se256_build bs 0 true true) 601 = None /\
+  se256_select1 (se256_build bs 0 true true) 300 = Some 512 /\ se256_select1 (se256_build bs 2 false false) 388 = None /\
+  se256_select0 (se256_build bs 1 true false) 211 = Some 511 /\ se256_select0 (se256_build bs 0 true true) 212 = None.
 Proof. vm_compute. repeat split; reflexivity. Qed.
 
 (* --- RankSelectSimple as written (simple.rs: one u32 per 256-bit block, popcounts of the block's words, binary
        search + ascending scan with a running remainder, clamped zero count of the last word) --- *)
-Theorem simple_rank1_correct : forall bs p,
-  p <= length bs -> simple_rank1 (simple_build bs) p = Some (rank1 bs p).
+Theorem simple_rank1_correct : forall extra bs p,
+  p <= length bs -> simple_rank1 (simple_build bs extra) p = Some (rank1 bs p).
 Proof. exact simple_rank1_correct_proof. Qed.
-Check simple_rank1_correct : forall bs p,
-  p <= length bs -> simple_rank1 (simple_build bs) p = Some (rank1 bs p).
+Check simple_rank1_correct : forall extra bs p,
+  p <= length bs -> simple_rank1 (simple_build bs extra) p = Some (rank1 bs p).
 Print Assumptions simple_rank1_correct.
 
-Theorem simple_rank0_correct : forall bs p,
-  p <= length bs -> simple_rank0 (simple_build bs) p = Some (rank0 bs p).
+Theorem simple_rank0_correct : forall extra bs p,
+  p <= length bs -> simple_rank0 (simple_build bs extra) p = Some (rank0 bs p).
 Proof. exact simple_rank0_correct_proof. Qed.
-Check simple_rank0_correct : forall bs p,
-  p <= length bs -> simple_rank0 (simple_build bs) p = Some (rank0 bs p).
+Check simple_rank0_correct : forall extra bs p,
+  p <= length bs -> simple_rank0 (simple_build bs extra) p = Some (rank0 bs p).
 Print Assumptions simple_rank0_correct.
 
-Theorem simple_rank1_refuses_past_end : forall bs p, length bs < p -> simple_rank1 (simple_build bs) p = None.
+Theorem simple_rank1_refuses_past_end : forall extra bs p, length bs < p -> simple_rank1 (simple_build bs extra) p = None.
 Proof. exact simple_rank1_refuses_proof. Qed.
-Check simple_rank1_refuses_past_end : forall bs p, length bs < p -> simple_rank1 (simple_build bs) p = None.
+Check simple_rank1_refuses_past_end : forall extra bs p, length bs < p -> simple_rank1 (simple_build bs extra) p = None.
 Print Assumptions simple_rank1_refuses_past_end.
 
-Theorem simple_get_correct : forall bs i,
-  simple_get (simple_build bs) i = if length bs <=? i then None else Some (nth i bs false).
+Theorem simple_get_correct : forall extra bs i,
+  simple_get (simple_build bs extra) i = if length bs <=? i then None else Some (nth i bs false).
 Proof. exact simple_get_correct_proof. Qed.
-Check simple_get_correct : forall bs i,
-  simple_get (simple_build bs) i = if length bs <=? i then None else Some (nth i bs false).
+Check simple_get_correct : forall extra bs i,
+  simple_get (simple_build bs extra) i = if length bs <=? i then None else Some (nth i bs false).
 Print Assumptions simple_get_correct.
 
-Theorem simple_count_ones : forall bs,
-  sm_mr1 (simple_build bs) = count1 bs /\ sm_size (simple_build bs) = length bs.
+Theorem simple_count_ones : forall extra bs,
+  sm_mr1 (simple_build bs extra) = count1 bs /\ sm_size (simple_build bs extra) = length bs.
 Proof. exact simple_count_ones_proof. Qed.
-Check simple_count_ones : forall bs,
-  sm_mr1 (simple_build bs) = count1 bs /\ sm_size (simple_build bs) = length bs.
+Check simple_count_ones : forall extra bs,
+  sm_mr1 (simple_build bs extra) = count1 bs /\ sm_size (simple_build bs extra) = length bs.
 Print Assumptions simple_count_ones.
 
-Theorem simple_select1_correct : forall bs k, simple_select1 (simple_build bs) k = select1 bs k.
+Theorem simple_select1_correct : forall extra bs k, simple_select1 (simple_build bs extra) k = select1 bs k.
 Proof. exact simple_select1_correct_proof. Qed.
-Check simple_select1_correct : forall bs k, simple_select1 (simple_build bs) k = select1 bs k.
+Check simple_select1_correct : forall extra bs k, simple_select1 (simple_build bs extra) k = select1 bs k.
 Print Assumptions simple_select1_correct.
 
-Theorem simple_select0_correct : forall bs k, simple_select0 (simple_build bs) k = select0 bs k.
+Theorem simple_select0_correct : forall extra bs k, simple_select0 (simple_build bs extra) k = select0 bs k.
 Proof. exact simple_select0_correct_proof. Qed.
-Check simple_select0_correct : forall bs k, simple_select0 (simple_build bs) k = select0 bs k.
+Check simple_select0_correct : forall extra bs k, simple_select0 (simple_build bs extra) k = select0 bs k.
 Print Assumptions simple_select0_correct.
 
 Example simple_nonvacuous :
   let bs := repeat true 300 ++ repeat false 212 ++ repeat true 88 in
-  simple_rank1 (simple_build bs) 600 = Some 388 /\ simple_rank1 (simple_build bs) 512 = Some 300 /\
-  simple_select1 (simple_build bs) 300 = Some 512 /\ simple_select1 (simple_build bs) 388 = None /\
-  simple_select0 (simple_build bs) 211 = Some 511 /\ simple_select0 (simple_build bs) 212 = None.
+  simple_rank1 (simple_build bs 3) 600 = Some 388 /\ simple_rank1 (simple_build bs 3) 512 = Some 300 /\
+  simple_select1 (simple_build bs 3) 300 = Some 512 /\ simple_select1 (simple_build bs 3) 388 = None /\
+  simple_select0 (simple_build bs 3) 211 = Some 511 /\ simple_select0 (simple_build bs 3) 212 = None.
 Proof. vm_compute. repeat split; reflexivity. Qed.
 
 (* --- the rest of few.rs: RankSelectFewOne rank0 / select0 / count_ones, RankSelectFewZero (sorted positions of the
@@ -412,49 +412,49 @@ Proof. vm_compute. split; reflexivity. Qed.
 
 (* --- RankSelectMixedIL256 as written (mixed_il_256.rs), one dimension: the other dimension only determines how many
        (all-zero) lines follow the data.  select0 is not offered by the code. --- *)
-Theorem mixed_rank1_correct : forall bs other p,
-  p <= length bs -> mx_rank1 (mx_build bs other) p = Some (rank1 bs p).
+Theorem mixed_rank1_correct : forall extra bs other p,
+  p <= length bs -> mx_rank1 (mx_build bs extra other) p = Some (rank1 bs p).
 Proof. exact mx_rank1_correct_proof. Qed.
-Check mixed_rank1_correct : forall bs other p,
-  p <= length bs -> mx_rank1 (mx_build bs other) p = Some (rank1 bs p).
+Check mixed_rank1_correct : forall extra bs other p,
+  p <= length bs -> mx_rank1 (mx_build bs extra other) p = Some (rank1 bs p).
 Print Assumptions mixed_rank1_correct.
 
-Theorem mixed_rank0_correct : forall bs other p,
-  p <= length bs -> mx_rank0 (mx_build bs other) p = Some (rank0 bs p).
+Theorem mixed_rank0_correct : forall extra bs other p,
+  p <= length bs -> mx_rank0 (mx_build bs extra other) p = Some (rank0 bs p).
 Proof. exact mx_rank0_correct_proof. Qed.
-Check mixed_rank0_correct : forall bs other p,
-  p <= length bs -> mx_rank0 (mx_build bs other) p = Some (rank0 bs p).
+Check mixed_rank0_correct : forall extra bs other p,
+  p <= length bs -> mx_rank0 (mx_build bs extra other) p = Some (rank0 bs p).
 Print Assumptions mixed_rank0_correct.
 
-Theorem mixed_rank1_refuses_past_end : forall bs other p, length bs < p -> mx_rank1 (mx_build bs other) p = None.
+Theorem mixed_rank1_refuses_past_end : forall extra bs other p, length bs < p -> mx_rank1 (mx_build bs extra other) p = None.
 Proof. exact mx_rank1_refuses_proof. Qed.
-Check mixed_rank1_refuses_past_end : forall bs other p, length bs < p -> mx_rank1 (mx_build bs other) p = None.
+Check mixed_rank1_refuses_past_end : forall extra bs other p, length bs < p -> mx_rank1 (mx_build bs extra other) p = None.
 Print Assumptions mixed_rank1_refuses_past_end.
 
-Theorem mixed_get_correct : forall bs other i,
-  mx_get (mx_build bs other) i = if length bs <=? i then None else Some (nth i bs false).
+Theorem mixed_get_correct : forall extra bs other i,
+  mx_get (mx_build bs extra other) i = if length bs <=? i then None else Some (nth i bs false).
 Proof. exact mx_get_correct_proof. Qed.
-Check mixed_get_correct : forall bs other i,
-  mx_get (mx_build bs other) i = if length bs <=? i then None else Some (nth i bs false).
+Check mixed_get_correct : forall extra bs other i,
+  mx_get (mx_build bs extra other) i = if length bs <=? i then None else Some (nth i bs false).
 Print Assumptions mixed_get_correct.
 
-Theorem mixed_count_ones : forall bs other,
-  mx_max_rank1 (mx_build bs other) = count1 bs /\ mx_size (mx_build bs other) = length bs.
+Theorem mixed_count_ones : forall extra bs other,
+  mx_max_rank1 (mx_build bs extra other) = count1 bs /\ mx_size (mx_build bs extra other) = length bs.
 Proof. exact mx_count_ones_proof. Qed.
-Check mixed_count_ones : forall bs other,
-  mx_max_rank1 (mx_build bs other) = count1 bs /\ mx_size (mx_build bs other) = length bs.
+Check mixed_count_ones : forall extra bs other,
+  mx_max_rank1 (mx_build bs extra other) = count1 bs /\ mx_size (mx_build bs extra other) = length bs.
 Print Assumptions mixed_count_ones.
 
-Theorem mixed_select1_correct : forall bs other k, mx_select1 (mx_build bs other) k = select1 bs k.
+Theorem mixed_select1_correct : forall extra bs other k, mx_select1 (mx_build bs extra other) k = select1 bs k.
 Proof. exact mx_select1_correct_proof. Qed.
-Check mixed_select1_correct : forall bs other k, mx_select1 (mx_build bs other) k = select1 bs k.
+Check mixed_select1_correct : forall extra bs other k, mx_select1 (mx_build bs extra other) k = select1 bs k.
 Print Assumptions mixed_select1_correct.
 
 Example mixed_nonvacuous :
   let bs := repeat true 300 ++ repeat false 212 ++ repeat true 88 in
-  mx_rank1 (mx_build bs 1000) 600 = Some 388 /\ mx_rank1 (mx_build bs 0) 512 = Some 300 /\
-  mx_select1 (mx_build bs 1000) 300 = Some 512 /\ mx_select1 (mx_build bs 77) 387 = Some 599 /\
-  mx_select1 (mx_build bs 1000) 388 = None /\ length (mx_ls (mx_build bs 1000)) = 4.
+  mx_rank1 (mx_build bs 0 1000) 600 = Some 388 /\ mx_rank1 (mx_build bs 1 0) 512 = Some 300 /\
+  mx_select1 (mx_build bs 0 1000) 300 = Some 512 /\ mx_select1 (mx_build bs 5 77) 387 = Some 599 /\
+  mx_select1 (mx_build bs 0 1000) 388 = None /\ length (mx_ls (mx_build bs 0 1000)) = 4.
 Proof. vm_compute. repeat split; reflexivity. Qed.
 
 (* --- trivial.rs: RankSelectAllZero / RankSelectAllOne on the all-zero / all-one list of the stored size --- *)
